@@ -136,6 +136,9 @@ class ExposeSensor(Device):
         if (
             telegram.direction is TelegramDirection.OUTGOING
             and self._periodic_send_task is not None
+            # not registered any more when the device's tasks were removed
+            # (XKNX.stop()) while this telegram was still queued
+            and self._periodic_send_task.xknx is not None
         ):
             self._periodic_send_task.restart()
 
